@@ -46,6 +46,10 @@ def eval_pair(job):
         except BaseException:  # noqa: BLE001
             r["toks2"] = ["?"]
         r["lines1"], r["lines2"] = docgen.abslines(o1), docgen.abslines(o2)
+        # a table that absorbed a following text line has a row the token alphabet cannot express: no machine acceptance for it
+        canon = {"| a | b |", "| --- | --- |", "| 1 | 2 |"}
+        if any(l.lstrip(" >-").startswith("|") and l.lstrip(" >-") not in canon for l in o1.split("\n")):
+            r["toks2"] = ["?"]
     return r
 
 
